@@ -215,7 +215,8 @@ pub fn cli_binary() -> std::path::PathBuf {
         }
         let work = std::path::Path::new(env!("CARGO_MANIFEST_DIR")).join("../.work");
         std::fs::create_dir_all(&work).unwrap();
-        let target = work.join("cli-target");
+        // the same override as in streams/c15.rs: a run against a copy of /repo must not share the directory
+        let target = std::env::var("QV_CLI_TARGET_DIR").map(std::path::PathBuf::from).unwrap_or_else(|_| work.join("cli-target"));
         // serialise with other checks through `flock` (util-linux) so that no extra crate is needed
         let status = std::process::Command::new("flock")
             .arg(work.join("cli-build.lock"))
